@@ -114,6 +114,8 @@ func (p *poller) addDialer(c *Conn) error {
 			fd,
 			len(p.g.connsUnix),
 		)
+		// the caller gets the error as the dial's outcome.
+		c.onConnected = nil
 		_ = c.closeWithError(err)
 		return err
 	}
@@ -123,6 +125,7 @@ func (p *poller) addDialer(c *Conn) error {
 	err := p.addReadWrite(fd)
 	if err != nil {
 		p.g.connsUnix[fd] = nil
+		c.onConnected = nil
 		_ = c.closeWithError(err)
 	}
 	return err
@@ -267,15 +270,7 @@ func (p *poller) readWriteLoop() {
 						if c.onConnected == nil {
 							_ = c.flush()
 						} else {
-							// reset to read-only before the callback, so that
-							// data written in it can set the writing event again.
-							c.mux.Lock()
-							if len(c.writeList) == 0 {
-								c.resetRead()
-							}
-							c.mux.Unlock()
-							c.onConnected(c, nil)
-							c.onConnected = nil
+							c.dialCompleted()
 						}
 					}
 
